@@ -38,6 +38,53 @@ FLAVOURS = {
 }
 
 _scratch = None
+COV_OUT = os.environ.get("ZCKV_COV_OUT")   # coverage audit (lib/covaudit.py): add gcov instrumentation to the gcc flavours
+
+
+def flags(name):
+    cc, cflags, ldflags, extra = FLAVOURS[name]
+    if COV_OUT and cc == "gcc":
+        cflags += " --coverage -fprofile-update=atomic"
+        ldflags += " --coverage"
+    return cc, cflags, ldflags, extra
+
+
+def cov_collect(sc):
+    """Audit mode only: fold the .gcda files of every flavour built in `sc` into one JSON
+    {file: {"lines": {n: count}, "branches": {n: [counts]}, "fn": {n: function}}}, paths relative to the tree."""
+    import glob
+    merged = {}
+    for bdir in sorted(glob.glob(os.path.join(sc, "b_*"))):
+        gcda = [os.path.relpath(p_, bdir) for p_ in glob.glob(os.path.join(bdir, "src", "**", "*.gcda"), recursive=True)]
+        if not gcda:
+            continue
+        p = subprocess.run(["gcov", "-b", "--json-format", "--stdout"] + gcda, cwd=bdir, stdout=subprocess.PIPE,
+                           stderr=subprocess.DEVNULL)
+        for line in p.stdout.decode(errors="replace").splitlines():
+            try:
+                doc = json.loads(line)
+            except Exception:
+                continue
+            for f in doc.get("files", []):
+                fn = os.path.normpath(os.path.join(bdir, f["file"])) if not os.path.isabs(f["file"]) else f["file"]
+                fn = os.path.realpath(fn)
+                root = os.path.realpath(REPO)
+                if not fn.startswith(root + "/src/"):
+                    continue
+                rel = fn[len(root) + 1:]
+                m = merged.setdefault(rel, {"lines": {}, "branches": {}, "fn": {}})
+                for ln in f["lines"]:
+                    k = str(ln["line_number"])
+                    m["lines"][k] = m["lines"].get(k, 0) + ln["count"]
+                    m["fn"][k] = ln.get("function_name", "")
+                    if ln.get("branches"):
+                        old = m["branches"].get(k)
+                        cur = [b["count"] for b in ln["branches"]]
+                        m["branches"][k] = [a + b for a, b in zip(old, cur)] if old and len(old) == len(cur) else cur
+    os.makedirs(COV_OUT, exist_ok=True)
+    tag = os.environ.get("ZCKV_COV_TAG", "run%d" % os.getpid())
+    with open(os.path.join(COV_OUT, tag + ".json"), "w") as f:
+        json.dump(merged, f)
 
 
 def scratch():
@@ -61,6 +108,11 @@ def _sig(signum, frame):
 
 def cleanup():
     global _scratch
+    if _scratch and os.path.isdir(_scratch) and COV_OUT:
+        try:
+            cov_collect(_scratch)
+        except Exception as e:   # audit aid only; never affects a verdict
+            sys.stderr.write("coverage collection failed: %s\n" % e)
     if _scratch and os.path.isdir(_scratch) and not os.environ.get("ZCKV_KEEP"):
         shutil.rmtree(_scratch, ignore_errors=True)
     _scratch = None
@@ -81,7 +133,7 @@ class Flavour:
     def __init__(self, name, bdir):
         self.name = name
         self.dir = bdir
-        self.cc, self.cflags, self.ldflags, _ = FLAVOURS[name]
+        self.cc, self.cflags, self.ldflags, _ = flags(name)
         self.lib = os.path.join(bdir, "src/lib/libzck.a")
         self.inc = [os.path.join(bdir, "include"), os.path.join(REPO, "src/lib"), os.path.join(REPO, "include"),
                     os.path.join(VERIF, "harness")]
@@ -133,7 +185,7 @@ def build(names, tools=True):
     fcntl.flock(lock, fcntl.LOCK_EX)
     try:
         for n in names:
-            cc, cflags, ldflags, extra = FLAVOURS[n]
+            cc, cflags, ldflags, extra = flags(n)
             bdir = os.path.join(sc, "b_" + n)
             env = dict(os.environ)
             env["CC"] = cc
